@@ -135,6 +135,9 @@ Fixpoint walk03 (k : case03) (prev : obs) (l : list (dact * obs)) : bool :=
   | (a, o) :: r =>
     (* Head() of the store and the sync numbering never go back *)
     (o_head prev <=? o_head o) && (o_id prev <=? o_id o)
+    (* gap-freedom at every observation: the Store serves nothing above its head (a write parked in the underlying
+       store keeps syncStore's lock: no later Append can reach the store before it) *)
+    && (o_top o =? o_head o)
     (* Syncer.Head() is never below the head the shim handed to the Store (State().Height), in any state
        (C07_head_never_below_store_head; [head_observed] below) *)
     && (o_height o <=? o_local o)
@@ -163,7 +166,7 @@ Fixpoint walk03 (k : case03) (prev : obs) (l : list (dact * obs)) : bool :=
 Definition ok03 (k : case03) : bool :=
   let h0 := h_height (last (q_init k) hdr_nil) in
   let i0 := h_id (last (q_init k) hdr_nil) in
-  let o0 := Obs 0 h0 h0 i0 0 0 0 false h0 None i0 in
+  let o0 := Obs 0 h0 h0 i0 0 0 0 false h0 None i0 h0 in
   let ids := map h_id (q_init k) ++ map h_id (q_chain k) ++ allowed_ids (q_gate k) (q_acts k) (q_results k) 0 o0 (q_acts k) in
   walk03 k o0 (q_acts k)
   && (match last_opt (map snd (q_acts k)) with
@@ -206,3 +209,16 @@ Qed.
 (** what [walk03] demands of every observation is what C07_head_never_below_store_head states of every configuration *)
 Lemma head_observed ret c : (o_height (observe ret c) <=? o_local (observe ret c)) = true.
 Proof. apply N.leb_le. cbn. unfold state_height. apply local_head_ge_cache. Qed.
+
+(** gap-freedom as the oracle sees it ([o_top = o_head] at every observation) is what Props/C03.v
+    C03_store_one_run_in_every_state states of every configuration of the machine with failing writes:
+    the Store serves exactly tail..head, in particular nothing above the head *)
+Lemma top_observed tail ret c :
+  (forall n, rs_has n (rs_log (c_store c)) = true <-> tail <= n <= rs_head (c_store c)) ->
+  o_top (observe ret c) = o_head (observe ret c).
+Proof.
+  intros H. cbn [observe o_top o_head]. unfold store_top.
+  assert (Hk : forall k, 1 <= k -> rs_has (rs_head (c_store c) + k) (rs_log (c_store c)) = false).
+  { intros k Hk. destruct (rs_has _ _) eqn:E; [|reflexivity]. apply H in E. lia. }
+  cbn [fold_left]. rewrite !Hk by lia. reflexivity.
+Qed.
